@@ -122,7 +122,7 @@ def run(shard):
     import os
     import hcommon as H
     cdm = H.import_repo()
-    from code_data import _flags_data, _code_data
+    _flags_data, _code_data = H.lib("_flags_data", "_code_data")
     fields = list(HEADER_FIELDS)
     if H.PY >= (3, 8):
         fields.append("co_posonlyargcount")
@@ -248,6 +248,19 @@ def run(shard):
                     H.count("evaluations")
                     H.count("unknown_bit_words")
                     H.distinct("w:%x:%s" % (wd, phase))
+            flush_viols()
+        # words outside 0 .. 2^32-1: negative ones (what a C int co_flags with the top bit set reads as; CodeType takes them on 3.7)
+        # and ones wider than the field; the low bits are subsets of the known flags, so only the part outside carries the loss
+        for trial in range(40):
+            low = word_of(rng.getrandbits(18)) if trial else 0x4f
+            for wd in (low - 2 ** 31, -low, ~low, -1, -2 ** 31, low - 2 ** 32, low | 1 << 32, low | 1 << 63, low | 1 << 100, low - 2 ** 63):
+                try:
+                    _flags_data.to_flags_data(wd)
+                except Exception:
+                    pass
+                H.count("evaluations")
+                H.count("out_of_range_words")
+                H.distinct("w:%x:range" % wd)
             flush_viols()
         H.count("checks:C11.flags_roundtrip", local["flags_checks"])
         H.count("flags_raised", local["raised"])
